@@ -126,7 +126,7 @@ def meta_cases(rng, tier):
     ks = [1, 5, 10, 11, 26, 33, 101] if tier == "quick" else [1, 2, 9, 10, 11, 12, 13, 26, 27, 49, 50, 101, 102, 250, 251]
     ks = [(k, None, 0) for k in ks]
     # every small symbol size once (size-specific fast paths in the slab layer)
-    for t in range(1, 25):
+    for t in list(range(1, 25)) + [17, 19, 20, 22, 23, 33, 41]:
         ks.append((rng.choice([4, 10, 12]), t, 0))
     # symbol sizes of at least one vector width with structured contents (data-dependent kernel paths)
     for kind in (1, 2, 3, 4, 5, 6, 6):
@@ -142,6 +142,8 @@ def meta_cases(rng, tier):
         hdr = [f, t, 1, 1, 1, nrep]
         mk = lambda d, tt=t, ff=f: C.Case("enc_packets", [ff, tt, 1, 1, 1, nrep] + d)
         j = rng.below(t)
+        if t >= 9 and t % 8 and rng.below(2) == 0:
+            j = t - 1 - rng.below(t % 8)  # a column in the last T mod 8 bytes (the part word-wise scans leave to a tail)
         col = [a[m * t + j] for m in range(k)]
         # decoding side: the same ESI set (one source symbol lost, repair symbols instead) at T and for column j at T = 1
         lost = rng.below(k)
@@ -150,7 +152,10 @@ def meta_cases(rng, tier):
         dec_1 = CG.sbd_case(rng, k, 1, 1, 1, 0, [esis], col)
         groups.append({"k": k, "t": t, "c": c, "j": j, "A": mk(a), "B": mk(b), "AxB": mk([x ^ y for x, y in zip(a, b)]),
                        "cA": mk([gmul(c, x) for x in a]), "col": C.Case("enc_packets", [k, 1, 1, 1, 1, nrep] + col),
-                       "decT": dec_t, "dec1": dec_1, "data": a, "colv": col})
+                       "decT": dec_t, "dec1": dec_1, "data": a, "colv": col,
+                       # the byte column embedded alone at symbol size t (every other column zero): symbols with a
+                       # zero prefix and a non-zero tail, or the reverse
+                       "emb": mk([a[i] if i % t == j else 0 for i in range(k * t)])})
     return groups
 
 
@@ -158,7 +163,7 @@ def cases(rng, tier):
     cs = slab_cases(rng, tier)
     cases.groups = meta_cases(rng, tier)
     for g in cases.groups:
-        cs += [g["A"], g["B"], g["AxB"], g["cA"], g["col"], g["decT"], g["dec1"]]
+        cs += [g["A"], g["B"], g["AxB"], g["cA"], g["col"], g["decT"], g["dec1"], g["emb"]]
     return cs
 
 
@@ -175,7 +180,7 @@ def evaluate(cs, rep, tier):
     impl_s, model_s, dis = G.diff_impl_model(slab, PROFILES, "slab")
     counter = []
     groups = getattr(cases, "groups", [])
-    flat = [g[k] for g in groups for k in ("A", "B", "AxB", "cA", "col", "decT", "dec1")]
+    flat = [g[k] for g in groups for k in ("A", "B", "AxB", "cA", "col", "decT", "dec1", "emb")]
     res = dict(zip([c.key() for c in flat], C.run_impl(flat, "release"))) if flat else {}
     for g in groups:
         t = g["t"]
@@ -185,6 +190,14 @@ def evaluate(cs, rep, tier):
         except (KeyError, ValueError, IndexError):
             counter.append({"input": g["A"].impl_line()[:300], "expected": "packets", "observed": "encoder failed", "oracle": "metamorphic"})
             continue
+        try:
+            pe = payloads(res[g["emb"].key()], t)
+            for (s1, e1, d1), (_, _, d5) in zip(pe, pcol):
+                if d1[g["j"]] != d5[0] or any(x for n_, x in enumerate(d1) if n_ != g["j"]):
+                    counter.append({"input": g["emb"].impl_line()[:400], "expected": f"packet ({s1},{e1}) of the block whose only non-zero byte column is {g['j']}: byte {g['j']} = the T = 1 packet of that column, every other byte 0", "observed": str(d1), "oracle": "column independence (embedded column)"})
+                    break
+        except (KeyError, ValueError, IndexError):
+            counter.append({"input": g["emb"].impl_line()[:300], "expected": "packets", "observed": "encoder failed", "oracle": "metamorphic"})
         rt, r1 = res[g["decT"].key()].split(), res[g["dec1"].key()].split()
         if rt[:2] != ["1", "1"] or [int(x) for x in rt[2:]] != g["data"]:
             counter.append({"input": g["decT"].impl_line()[:500], "expected": "decoding returns the block at this symbol size", "observed": " ".join(rt[:20]), "oracle": "decode independent of T"})
